@@ -130,6 +130,8 @@ class MCSRules(LockModel):
                     ks.add(v[3][1])
                 elif isinstance(v, tuple) and v[0] == 'op' and v[1] in ('|', '+', '^') and is_const(v[2]):
                     ks.add(v[2][1])
+                elif isinstance(v, tuple) and v[0] == 's' and '~' in v[1]:
+                    continue      # a loop-carried local (widened): other paths show the expression it is computed from
                 else:
                     raise AnalysisBroken('MCSLock::%s: arrival write %s is not (x op constant)' % (name, show(v)))
             if len(ks) != 1:
